@@ -253,8 +253,9 @@ def build(reg, src):
         "((l==r)*1 vs vec_fn2/safe_equal on object arrays) and the torch backend's values are NOT decided (torch is not installed here)",
         "templates compose: every emitted source is parenthesised, a call or a postfix expression, so substituting a template for a "
         "placeholder keeps the parsed structure (induction on the IR, stated)",
-        "the admission walk (_ast_to_ir) names variables in first-occurrence order of a left-to-right walk (read off the code; the bounded "
-        "positional check compares _collect_params with that order)",
+        "the admission walk (_ast_to_ir) names variables in first-occurrence order of a left-to-right walk (read off the code); that "
+        "_collect_params lists the names in exactly that order is proved for IR trees of any depth (contracts/c05_params.py), the bounded "
+        "positional check is kept as cross-check of the specification's renderings",
         "torch's _ir_to_source is extracted from the source text and executed standalone (torch itself is not needed)",
     ]
     reg.assumed_calls['self._compiled_for'] = Bool       # the admission test on the actual arguments: its body is checked structurally (compiled-calls-guarded)
@@ -294,6 +295,21 @@ def build(reg, src):
                                     And(VBool(guard_ok), s.g('through_setitem') + s.g('direct_context_writes') == 1)), lambda s, r: same(r, s.v0)])
     reg.extra_checks.append(check_templates)
     reg.extra_checks.append(check_positional)
+
+    # the parameter side of positional agreement as an UNBOUNDED statement: _collect_params / _walk against the first-occurrence
+    # specification by structural recursion (contracts/c05_params.py); the enumeration above stays as the cross-check of the spec renderings
+    def collect_params_proof(ctx):
+        from pyvc.subverify import subverify
+        from contracts import c05_params as cp
+        rows, sub = subverify(src, 'C05', cp, [cp.KW, cp.K], why='distinct variable names in first-occurrence order, IR trees of any depth',
+                              timeout_s=30, prefer_cvc5=r'_walk#post')
+        for k in (cp.KW, cp.K):
+            if src.find(k) is not None:
+                ctx['eng'].verified[k] = dict(sha=src.sha(src.find(k)), backend='z3/cvc5 (contracts/c05_params.py)')
+        ctx['eng'].reg.assumptions += [a for a in sub.reg.assumptions if a not in ctx['eng'].reg.assumptions]
+        return rows
+    collect_params_proof.__name__ = 'collect-params-proof'
+    reg.extra_checks.append(collect_params_proof)
 
     reg.extra_checks.append(compiled_calls_guarded)
 
